@@ -8,25 +8,59 @@ From Coq Require Import Lia ZifyBool.
 Open Scope Z_scope.
 
 Definition ex_g : block :=
-  mkBlock (mkHeader 0 100 0 0 0 2 0) 3 2 true [mkTxn 2 [] [mkOut 1 1000 1000 1 77] [] 0 true true []].
+  mkBlock (mkHeader 0 100 0 0 0 2 0) 3 2 true [mkTxn 2 [] [mkOut 1 1000 1000 1 77] [] 0 true true [] 100 2].
 Definition ex_b1 : block :=
   mkBlock (mkHeader 0 200 1 0 3 6 77) 7 6 true
-    [mkTxn 6 [1] [mkOut 2 600 10 4 11; mkOut 1 400 0 8 12] [mkSig false true 1] 0 true true [5; 9]].
+    [mkTxn 6 [1] [mkOut 2 600 10 4 11; mkOut 1 400 0 8 12] [mkSig false true 1] 0 true true [5; 9] 200 6].
 (* spends output 1 again *)
 Definition ex_b2 : block :=
   mkBlock (mkHeader 0 300 2 0 7 13 (Z.lxor 11 12)) 14 13 true
-    [mkTxn 13 [1] [mkOut 2 1000 0 15 16] [mkSig false true 1] 0 true true []].
+    [mkTxn 13 [1] [mkOut 2 1000 0 15 16] [mkSig false true 1] 0 true true [] 150 13].
 (* validly signed, valid transaction, but names block 3 (genesis) as its parent *)
 Definition ex_b3 : block :=
   mkBlock (mkHeader 0 300 2 0 3 20 (Z.lxor 11 12)) 21 20 true
-    [mkTxn 20 [4] [mkOut 1 600 0 22 23] [mkSig false true 2] 0 true true []].
+    [mkTxn 20 [4] [mkOut 1 600 0 22 23] [mkSig false true 2] 0 true true [] 150 20].
+(* a well-linked signed block with one good transaction (spends 4) and one that
+   creates 50 coins (spends 8 = 400 coins into 400 + 50) *)
+Definition ex_b4 : block :=
+  mkBlock (mkHeader 0 300 2 0 7 30 (Z.lxor 11 12)) 31 30 true
+    [mkTxn 32 [8] [mkOut 2 400 0 33 34; mkOut 1 50 0 35 36] [mkSig false true 1] 0 true true [] 180 32;
+     mkTxn 37 [4] [mkOut 1 600 0 38 39] [mkSig false true 2] 0 true true [] 150 37].
 Definition ex_ops : list op := [ExecBlock ex_b1; ExecBlock ex_b2; ExecBlock ex_b3].
+Definition ex_ops_arb : list op := [ExecBlock ex_b1; ExecBlock ex_b4].
 Definition ex_dump : dump := mkDump 0 0 0 0 0 true true [] 0.
 Definition ex_hist : history :=
-  mkHist ex_g 1000 ex_dump [(ex_b1, Accepted, ex_dump); (ex_b2, Accepted, ex_dump); (ex_b3, Accepted, ex_dump)].
+  mkHist false ex_g 1000 ex_dump
+    [(ex_b1, Accepted, ex_dump, []); (ex_b2, Accepted, ex_dump, []); (ex_b3, Accepted, ex_dump, []);
+     (ex_b4, Accepted, ex_dump, [])].
 
-Lemma ex_premises : genesis_wf ex_g /\ ops_in_range ex_ops /\ ids_consistent ex_g (ops_txns ex_ops).
+Lemma ex_premises_all : genesis_wf ex_g /\ ops_in_range (ex_ops ++ [ExecBlock ex_b4]) /\
+  ids_consistent ex_g (ops_txns (ex_ops ++ [ExecBlock ex_b4])).
 Proof. apply (premises_sound ex_hist). vm_compute. reflexivity. Qed.
+Lemma ex_premises : genesis_wf ex_g /\ ops_in_range ex_ops /\ ids_consistent ex_g (ops_txns ex_ops).
+Proof.
+  destruct ex_premises_all as [G [R [C1 [C2 C3]]]]. split; [exact G|]. split.
+  - unfold ops_in_range in *. apply Forall_app in R. tauto.
+  - unfold ids_consistent. unfold ops_txns in *. rewrite flat_map_app in C1, C2, C3.
+    repeat split; intros; [eapply C1|eapply C2|eapply C3]; eauto; apply in_or_app; left; assumption.
+Qed.
+Lemma ex_premises_arb : genesis_wf ex_g /\ ops_in_range ex_ops_arb /\ ids_consistent ex_g (ops_txns ex_ops_arb).
+Proof.
+  destruct ex_premises_all as [G [R [C1 [C2 C3]]]]. split; [exact G|].
+  assert (Hsub : forall t, In t (ops_txns ex_ops_arb) -> In t (ops_txns (ex_ops ++ [ExecBlock ex_b4]))).
+  { intros t Ht. vm_compute in Ht. vm_compute. tauto. }
+  split.
+  - unfold ops_in_range in *. rewrite Forall_forall in *. intros o Ho. apply R. vm_compute in Ho. vm_compute. tauto.
+  - unfold ids_consistent. repeat split; intros; [eapply C1|eapply C2|eapply C3]; eauto.
+Qed.
+
+(* an arbitrating node keeps the good transaction of ex_b4 and drops the one creating coins *)
+Lemma ex_run_arb :
+  snd (step_arb (run_arb (init_state ex_g) [ExecBlock ex_b1]) (ExecBlock ex_b4)) = Accepted /\
+  map (fun b => map t_hash (b_txns b)) (chain (run_arb (init_state ex_g) ex_ops_arb)) = [[37]; [6]; [2]] /\
+  map (fun u => (u_id u, u_coins u)) (utxo (run_arb (init_state ex_g) ex_ops_arb)) = [(8, 400); (38, 600)] /\
+  snd (step (run (init_state ex_g) [ExecBlock ex_b1]) (ExecBlock ex_b4)) = Rejected EInsufficientCoins.
+Proof. vm_compute. repeat split. Qed.
 
 Lemma ex_run :
   snd (step (init_state ex_g) (ExecBlock ex_b1)) = Accepted /\
